@@ -33,6 +33,9 @@ type Seed struct {
 	Flavour  int       `json:"flavour,omitempty"`
 	Commit   uint64    `json:"commit,omitempty"` // persisted commit index (commit-tracking flavour)
 	Snap     *SnapSeed `json:"snap,omitempty"`
+	// Compacted holds the history that Snap covers when Log is empty (used by
+	// the references only; not written to the disk)
+	Compacted []Entry `json:"compacted,omitempty"`
 }
 
 type SnapSeed struct {
